@@ -394,7 +394,7 @@ class CodeGenerator(abc.ABC):
             parameters=parameters,
             values=values,
             return_name=rhs.return_name,
-            num_return_values=rhs.num_return_values,
+            num_return_values=shape,
             shape_info=shape_info,
             values_type="numpy.zeros(shape)",
             missing_variables=missing_variables,
@@ -444,7 +444,7 @@ class CodeGenerator(abc.ABC):
             parameters=parameters,
             values="\n".join(values_lst),
             return_name=rhs.return_name,
-            num_return_values=rhs.num_return_values,
+            num_return_values=shape,
             shape_info=shape_info,
             values_type="numpy.zeros(shape)",
             missing_variables=missing_variables,
